@@ -18,6 +18,13 @@ fn bits_eq2(a: &[Vec<f64>], b: &[Vec<f64>]) -> bool {
     a.len() == b.len() && a.iter().zip(b).all(|(x, y)| x.len() == y.len() && x.iter().zip(y).all(|(p, q)| p.to_bits() == q.to_bits()))
 }
 
+/// The listed finding: when the GV iterations start next to their fixed point, the step-size
+/// control of the optimiser (exact comparisons of successive objective values) is decided by
+/// rounding, and the contour at h differs from the transposed contour at 0 by up to 2e-7
+/// (measured: up to 4.2e-6 over the band 1e-8..1e-3 of relative distance of the target from the variance; 2e-13 over 3103 cases in 1e-3..3e-2).
+const NEAR_FIXED_POINT_SIG: &str = "f0-not-shifted-by-h-half-tones:gv-step-control-decided-by-rounding-next-to-the-fixed-point";
+const NEAR_FIXED_POINT_BOUND: f64 = 1e-4;
+
 fn one(ctx: &mut Ctx, env: &Env, rng: &mut Rng, base: &Engine, rv: &RefVoice, descr: &str, idx: usize) {
     let nstreams = base.voices.global_metadata().num_streams;
     let mut cond = Cond::random(rng, nstreams, false);
@@ -123,6 +130,7 @@ fn one(ctx: &mut Ctx, env: &Env, rng: &mut Rng, base: &Engine, rv: &RefVoice, de
         }
     }
     let nvoiced = m0.iter().filter(|b| **b).count();
+    let mut near_fixed_point = false;
     // GV on a (numerically) constant log-F0 trajectory only rescales rounding noise; the
     // variance law has nothing to act on there, so the shift law is not judged (isolation still is)
     if base.voices.stream_metadata(1).use_gv && nvoiced > 0 {
@@ -141,8 +149,12 @@ fn one(ctx: &mut Ctx, env: &Env, rng: &mut Rng, base: &Engine, rv: &RefVoice, de
             use jbonsai::model::Models;
             let models = Models::new(&labels, &e0.voices, e0.condition.get_interporation_weight());
             let mut ms = models.model_stream(1);
+            let mut gv_target = None;
             let switch: Vec<bool> = match ms.gv.take() {
-                Some((_, sw)) => sw.iter().zip(&r0.durations).flat_map(|(s, d)| std::iter::repeat(*s).take(*d)).collect(),
+                Some((p, sw)) => {
+                    gv_target = p.first().map(|m| m.0);
+                    sw.iter().zip(&r0.durations).flat_map(|(s, d)| std::iter::repeat(*s).take(*d)).collect()
+                }
                 None => vec![true; m0.len()],
             };
             let ml = MlpgAdjust::new(0.0, thr, ms).create(&r0.durations);
@@ -153,6 +165,11 @@ fn one(ctx: &mut Ctx, env: &Env, rng: &mut Rng, base: &Engine, rv: &RefVoice, de
                 if var < 1e-10 {
                     ctx.count("degenerate_constant_f0_with_gv_skipped", 1.0);
                     return;
+                }
+                // the variance target within 0.3 % of the variance the contour already has: the
+                // GV iterations start next to their fixed point (see `gv-near-fixed-point`)
+                if let Some(t) = gv_target {
+                    near_fixed_point = (t * e0.condition.get_gv_weight(1) / var - 1.0).abs() < 3e-3;
                 }
             }
         }
@@ -182,7 +199,7 @@ fn one(ctx: &mut Ctx, env: &Env, rng: &mut Rng, base: &Engine, rv: &RefVoice, de
             eprintln!("DBG dur {:?}", r0.durations);
         }
         ctx.violation(
-            "f0-not-shifted-by-h-half-tones",
+            if near_fixed_point && worst <= NEAR_FIXED_POINT_BOUND { NEAR_FIXED_POINT_SIG } else { "f0-not-shifted-by-h-half-tones" },
             d(J::obj().set("frame", at).set("lf0_at_0", r0.lf0[at][0]).set("lf0_at_h", rh.lf0[at][0]).set("expected_shift", h * HT).set("error", worst)),
         );
         return;
@@ -300,6 +317,94 @@ pub fn run(ctx: &mut Ctx) {
             Err(e) => ctx.inconclusive(&format!("bundled voice: {}", e)),
         }
     }
+    // the GV weight chosen so that the variance target almost equals the variance the
+    // trajectory has before the variance is restored: the GV iterations then start next to
+    // their fixed point, where the unchanged optimiser's step-size control is decided by
+    // rounding (the listed finding, bounded at 1e-4) and where anything else that depends on
+    // the *level* of the contour shows as a larger deviation from the exact transposition
+    let n = ctx.n(160, 4000);
+    ctx.run_cases("gv-near-fixed-point", n, false, |ctx, rng, idx| {
+        use jbonsai::mlpg_adjust::MlpgAdjust;
+        use jbonsai::model::Models;
+        let e = &bundled;
+        let labels = env.corpus.random_utterance(rng, 2, if ctx.quick() { 10 } else { 30 });
+        let Ok(r) = trajectories(e, labels.clone()) else { return };
+        let thr = e.condition.get_msd_threshold(1);
+        let models = Models::new(&labels, &e.voices, e.condition.get_interporation_weight());
+        let mut ms = models.model_stream(1);
+        let Some((gvp, sw)) = ms.gv.take() else { return };
+        let switch: Vec<bool> = sw.iter().zip(&r.durations).flat_map(|(s, d)| std::iter::repeat(*s).take(*d)).collect();
+        let ml = MlpgAdjust::new(0.0, thr, ms).create(&r.durations);
+        let vals: Vec<f64> = ml.iter().zip(&switch).filter(|(f, s)| **s && f[0] != NODATA).map(|(f, _)| f[0]).collect();
+        if vals.len() < 10 {
+            ctx.count("too_few_voiced_frames_skipped", 1.0);
+            return;
+        }
+        let mean = vals.iter().sum::<f64>() / vals.len() as f64;
+        let var = vals.iter().map(|x| (x - mean) * (x - mean)).sum::<f64>() / vals.len() as f64;
+        let delta = rng.log_uniform(1e-8, 1e-3) * if rng.chance(0.5) { 1.0 } else { -1.0 };
+        let w = var / gvp[0].0 * (1.0 + delta);
+        if !(w > 0.0 && w <= 2.0) || var < 1e-8 {
+            ctx.count("weight_outside_its_range_skipped", 1.0);
+            return;
+        }
+        let h = if idx % 3 == 0 { rng.irange(-24, 24) as f64 } else { rng.uniform(-24.0, 24.0) };
+        if h.abs() < 0.5 {
+            return;
+        }
+        let mut e0 = e.clone();
+        e0.condition.set_gv_weight(1, w);
+        let mut eh = e0.clone();
+        eh.condition.set_additional_half_tone(h);
+        let (Ok(r0), Ok(rh)) = (trajectories(&e0, labels.clone()), trajectories(&eh, labels.clone())) else {
+            ctx.violation("synthesize-err", J::Null);
+            return;
+        };
+        // (no voiced state near the limits)
+        let lo = r0.lf0.iter().filter(|f| f[0] != NODATA).map(|f| f[0]).fold(f64::INFINITY, f64::min);
+        let hi = r0.lf0.iter().filter(|f| f[0] != NODATA).map(|f| f[0]).fold(f64::NEG_INFINITY, f64::max);
+        if lo + h * HT <= MIN_LF0 + 0.7 || hi + h * HT >= MAX_LF0 - 0.7 || lo <= MIN_LF0 + 0.7 {
+            ctx.count("clamp_branch_cases_isolation_only", 1.0);
+            return;
+        }
+        if r0.durations != rh.durations || r0.lf0.len() != rh.lf0.len() {
+            ctx.violation("half-tone-changed-durations", J::Null);
+            return;
+        }
+        let mut worst = 0.0f64;
+        let mut at = 0;
+        for (t, (a, b)) in r0.lf0.iter().zip(&rh.lf0).enumerate() {
+            if (a[0] == NODATA) != (b[0] == NODATA) {
+                ctx.violation("half-tone-changed-voicing-pattern", J::Null);
+                return;
+            }
+            if a[0] == NODATA {
+                continue;
+            }
+            let er = ((b[0] - a[0]) - h * HT).abs();
+            if er > worst || er.is_nan() {
+                worst = er;
+                at = t;
+            }
+        }
+        ctx.max("worst_shift_error_near_the_gv_fixed_point", worst);
+        ctx.count("contours_compared_near_the_gv_fixed_point", 1.0);
+        ctx.count("voiced_frames_checked", vals.len() as f64);
+        if !(worst <= 1e-9) {
+            ctx.violation(
+                if worst <= NEAR_FIXED_POINT_BOUND { NEAR_FIXED_POINT_SIG } else { "f0-not-shifted-by-h-half-tones" },
+                J::obj()
+                    .set("voice", "bundled")
+                    .set("h", h)
+                    .set("gv_weight_of_log_f0", w)
+                    .set("relative_distance_of_the_variance_target_from_the_ml_variance", delta)
+                    .set("labels", J::Arr(to_strings(&labels).into_iter().take(3).map(J::Str).collect()))
+                    .set("observed", J::obj().set("frame", at).set("lf0_at_0", r0.lf0[at][0]).set("lf0_at_h", rh.lf0[at][0]).set("expected_shift", h * HT).set("error", worst)),
+            );
+            return;
+        }
+        ctx.nontrivial(mix(&[0x9f, (h * 1000.0) as i64 as u64, hash_str(&to_strings(&labels).join("|"))]));
+    });
     // generated voices (2 and 3 streams, different window sets)
     let n = ctx.n(200, 3000);
     ctx.run_cases("synthetic", n, false, |ctx, rng, idx| {
